@@ -69,6 +69,7 @@ type Op struct {
 	Pos      string
 	Enabled  func() bool
 	ReadLike bool
+	Idle     bool // enabled only when no other thread is enabled (quiescence)
 	N        int
 	val      any
 	delta    int
@@ -128,6 +129,7 @@ type Exec struct {
 	KeepTrace bool
 	Leaked    []string // non-daemon threads blocked for ever at the end
 	MainDone  bool     // thread 0 had returned when the execution ended
+	HookFail  string   // StepHook reported an invariant violation
 
 	watch *time.Timer
 }
@@ -375,8 +377,16 @@ func (e *Exec) loop() {
 				continue
 			}
 			live++
-			if e.enabledOp(t) {
+			if !t.pending.Idle && e.enabledOp(t) {
 				en = append(en, t.id)
+			}
+		}
+		if len(en) == 0 {
+			// quiescence: threads waiting for it may go now
+			for _, t := range e.threads {
+				if !t.done && t.pending.Idle {
+					en = append(en, t.id)
+				}
 			}
 		}
 		if live == 0 {
@@ -425,6 +435,12 @@ func (e *Exec) loop() {
 		e.runUntilPoint(t)
 		if e.Panic != nil {
 			return
+		}
+		if StepHook != nil {
+			if msg := StepHook(); msg != "" {
+				e.HookFail = msg
+				return
+			}
 		}
 	}
 }
@@ -780,6 +796,18 @@ func Choose(pos string, obj any, n int) int {
 	}
 	t := point(&Op{Kind: KChoose, N: n, Pos: pos, Obj: obj})
 	return t.selIdx
+}
+
+// StepHook, when set, is evaluated after every scheduling step (white-box state invariants); a
+// non-empty result ends the execution.
+var StepHook func() string
+
+// AwaitQuiescence blocks the calling harness thread until no other thread can move.
+func AwaitQuiescence(pos string) {
+	if ex == nil {
+		return
+	}
+	point(&Op{Kind: KEnv, Pos: pos, Idle: true})
 }
 
 // Env is a (possibly blocking) environment operation on obj.
